@@ -272,19 +272,8 @@ func propC14(t *rapid.T) {
 		if rapid.IntRange(0, 9).Draw(t, "columnless") == 0 {
 			zc := d.QF.GroupBy().Aggregate()
 			if zc.Err == nil && len(zc.ColumnNames()) == 0 {
-				var zbuf bytes.Buffer
-				var zerr error
-				if perr := hx.Safely(func() { zerr = zc.ToJSON(&zbuf) }); perr != nil || zerr != nil {
-					t.Fatalf("ToJSON of a column-less frame with %d rows: panic %v, error %v\n%s", zc.Len(), perr, zerr, desc())
-				}
-				var recs []map[string]interface{}
-				if err := json.Unmarshal(zbuf.Bytes(), &recs); err != nil || len(recs) != zc.Len() {
-					t.Fatalf("ToJSON of a column-less frame with %d rows wrote %q (%v; %d records)\n%s", zc.Len(), zbuf.String(), err, len(recs), desc())
-				}
-				for _, r := range recs {
-					if len(r) != 0 || r == nil {
-						t.Fatalf("ToJSON of a column-less frame with %d rows wrote %q\n%s", zc.Len(), zbuf.String(), desc())
-					}
+				if msg := checkColumnlessJSON(zc); msg != "" {
+					t.Fatalf("%s\n%s", msg, desc())
 				}
 				classes = append(classes, "columnless-frame")
 			}
@@ -297,4 +286,23 @@ func propC14(t *rapid.T) {
 		}
 		evC14.Case(escape && fraction, desc, classes...)
 	}
+}
+
+// checkColumnlessJSON: a frame without columns is written as one empty object per row.
+func checkColumnlessJSON(zc qframe.QFrame) string {
+	var zbuf bytes.Buffer
+	var zerr error
+	if perr := hx.Safely(func() { zerr = zc.ToJSON(&zbuf) }); perr != nil || zerr != nil {
+		return fmt.Sprintf("ToJSON of a column-less frame with %d rows: panic %v, error %v", zc.Len(), perr, zerr)
+	}
+	var recs []map[string]interface{}
+	if err := json.Unmarshal(zbuf.Bytes(), &recs); err != nil || len(recs) != zc.Len() {
+		return fmt.Sprintf("ToJSON of a column-less frame with %d rows wrote %q (%v; %d records)", zc.Len(), zbuf.String(), err, len(recs))
+	}
+	for _, r := range recs {
+		if len(r) != 0 || r == nil {
+			return fmt.Sprintf("ToJSON of a column-less frame with %d rows wrote %q", zc.Len(), zbuf.String())
+		}
+	}
+	return ""
 }
